@@ -914,6 +914,8 @@ def gen_cases(ctx):
     for p in PRF_IDS + (1, 6):
         for i in INTEG_IDS + (1, 5):
             for e, kl in ((12, 128), (12, 192), (12, 256), (12, 512), (12, None), (12, 0), (12, 64), (13, 128)):
+                if quick and (p in (1, 6) or i in (1, 5)) and (e, kl) != (12, 128):
+                    continue
                 cases.append((['sizes', [p, i, e, kl]], 'sizes', (p, i, e, kl)))
     return cases
 
@@ -1131,14 +1133,37 @@ def correspond(ctx):
         meta.append((kind, inp))
         ctx.case([kind, repr(inp)], nontrivial=True)
         ctx.count(kind)
-    bad = core.run_cases(ctx, CLUSTER, 'From Keys Require Import KeysRun.', 'run', cases, shard=150)
+    # shards balanced by literal volume: many cheap cases per coqc, few of the long-nonce ones
+    groups = {}
+    for gi, (kind, a) in enumerate(meta):
+        key = 'prfplus' if kind == 'prfplus' else 'sizes' if kind in ('sizes', 'dh-key-len') else 'keys'
+        groups.setdefault(key, []).append(gi)
+    bad = []
+    from concurrent.futures import ThreadPoolExecutor
+
+    def run_group(key):
+        idxs = groups[key]
+        shard = {'prfplus': 110, 'sizes': 400, 'keys': 30}[key]
+        sub = [cases[gi] for gi in idxs]
+        return [(idxs[li], out) for li, out in
+                core.run_cases(ctx, CLUSTER, 'From Keys Require Import KeysRun.', 'run', sub, shard=shard,
+                               name='cases_' + key)]
+
+    def closedness():
+        return core.run(['coqc'] + core.coq_flags(CLUSTER) + ['Props/C04.v'], cwd=core.cluster_dir(CLUSTER),
+                        timeout=600)
+    with ThreadPoolExecutor(max_workers=4) as ex:
+        closed = ex.submit(closedness)
+        for res in ex.map(run_group, sorted(groups)):
+            bad += res
+        rc, out = closed.result()
+    bad.sort()
     for gi, model_out in bad[:10]:
         kind, a = meta[gi]
         fails.append(Failure('correspondence', 'keys:' + kind,
                              f'{kind}{a!r}: implementation {cases[gi][1]!r} but model {model_out[-600:]}',
                              {'kind': 'correspondence', 'case': repr(cases[gi][0])}))
     # the closed theorems must print no assumptions at all (the axiom whitelist is meant for C04_primes.v only)
-    rc, out = core.run(['coqc'] + core.coq_flags(CLUSTER) + ['Props/C04.v'], cwd=core.cluster_dir(CLUSTER), timeout=300)
     if rc != 0 or 'Axioms:' in out or out.count('Closed under the global context') < 14:
         fails.append(Failure('proof', 'proof:closedness', 'a theorem of Props/C04.v is not closed under the global '
                              'context: ' + out[-400:], {'kind': 'closedness'}))
